@@ -1,4 +1,5 @@
 import Uft.Lemmas.PyTrace
+import Uft.Lemmas.PyHook
 /-
 C19 — Python programs are traced at function granularity with balanced calls.
 Property theorems only (helpers are in Lemmas/PyTrace.lean).
@@ -8,6 +9,13 @@ mode, which functions are library functions, and `fixed`: with/without the
 repair of finding F2).  A Python run is a forest `f : Calls α` of calls; the
 interpreter hands `eventsL f` (or, after `os._exit`, a prefix of it) to
 `uftrace_trace_python`, which is `run c St.init`.
+
+The second half ("end to end", Model/PyHook.lean) puts the decision between what
+comes before it in `uftrace_trace_python` — the first-frame test by address, the
+rb-tree / shared-memory symbol table and the `python.fake.sym` file — and what
+comes after it: libmcount's `__cygprof_entry` / `__cygprof_exit` (the shared hook
+model `Uft.Mcount`) including an exit hook that arrives with nothing on the
+shadow stack.
 -/
 namespace Uft.PyTrace
 
@@ -217,5 +225,306 @@ example :
       false false 0
       (.cons (.node 0 .py (.cons (.node 1 .c (.cons (.node 2 .py (.cons (.node 3 .cexc .nil) .nil)) .nil)) .nil)) .nil)
     = [.enter 0, .enter 1, .enter 2, .exit, .exit, .exit] := by decide
+
+/-! ## end to end: first frame, symbol table, libmcount's hooks (Model/PyHook.lean) -/
+section EndToEnd
+open Uft.PyHook
+
+variable {β : Type}
+
+/-! ### the symbol table (`convert_function_addr`, `get_new_sym_addr`, `write_symtab`)
+
+`ops` is any history of lookups by any number of processes that share the
+region and `fork` their private trees (multiprocessing); `cmp` is `strcmp`. -/
+
+/-- C19, symbol addresses: whatever the order of first appearance and whichever
+    process saw them, two different names never get the same address; and one
+    process has one address per name. -/
+theorem c19_sym_addr_injective (cmp : β → β → Ordering) (hc : CmpEq cmp) (isLib : β → Bool) (ops : List (Op β))
+    (p q : Nat) (a b : β) (sa sb : Sym β)
+    (ha : ((World.init.run cmp isLib ops).trees p).find cmp a = some sa)
+    (hb : ((World.init.run cmp isLib ops).trees q).find cmp b = some sb) :
+    (sa.addr = sb.addr → a = b) ∧ (p = q → a = b → sa.addr = sb.addr) := by
+  have hw := worldOk_run cmp hc isLib ops World.init (worldOk_init cmp isLib)
+  constructor
+  · intro e
+    obtain ⟨_, _, l1, hl1, ha1, _, hn1⟩ := hw.trees p a sa ha
+    obtain ⟨_, _, l2, hl2, ha2, _, hn2⟩ := hw.trees q b sb hb
+    have := line_addr_inj _ hw.shm l1 l2 hl1 hl2 (by rw [ha1, ha2, e])
+    rw [← hn1, ← hn2, this]
+  · intro hpq hab
+    subst hpq; subst hab
+    rw [ha] at hb
+    cases hb
+    rfl
+
+/-- … and the address a process has for a name never changes afterwards (as long
+    as its pid is not handed to a new child). -/
+theorem c19_sym_addr_stable (cmp : β → β → Ordering) (hc : CmpEq cmp) (isLib : β → Bool) (ops more : List (Op β))
+    (p : Nat) (n : β) (s : Sym β) (hnf : ∀ q c, Op.fork q c ∈ more → c ≠ p)
+    (h : ((World.init.run cmp isLib ops).trees p).find cmp n = some s) :
+    ((World.init.run cmp isLib (ops ++ more)).trees p).find cmp n = some s := by
+  have : World.init.run cmp isLib (ops ++ more) = (World.init.run cmp isLib ops).run cmp isLib more := by
+    simp [World.run, List.foldl_append]
+  rw [this]
+  exact world_keeps cmp hc isLib more _ p n s hnf h
+
+/-- C19, symbol file: every address any process holds for a name resolves,
+    through the `python.fake.sym` that `write_symtab` produces from the shared
+    region and the reader's "first line whose range holds the address", to that
+    name; the entry says `P` exactly for a library function. -/
+theorem c19_fake_sym_resolves (cmp : β → β → Ordering) (hc : CmpEq cmp) (isLib : β → Bool) (ops : List (Op β))
+    (p : Nat) (n : β) (s : Sym β)
+    (h : ((World.init.run cmp isLib ops).trees p).find cmp n = some s) :
+    resolve (symFile (World.init.run cmp isLib ops).shm) s.addr = some n ∧ s.lib = isLib n := by
+  have hw := worldOk_run cmp hc isLib ops World.init (worldOk_init cmp isLib)
+  obtain ⟨_, h2, l, hl, ha, _, hn⟩ := hw.trees p n s h
+  refine ⟨?_, h2⟩
+  rw [← ha, ← hn]
+  exact resolve_line _ hw.shm l hl
+
+/-- the written file is sorted: line `i` carries address `i + 1` (the
+    `__sym_end` line last) -/
+theorem c19_fake_sym_sorted (cmp : β → β → Ordering) (hc : CmpEq cmp) (isLib : β → Bool) (ops : List (Op β))
+    (i : Nat) (hi : i < (symFile (World.init.run cmp isLib ops).shm).length) :
+    ((symFile (World.init.run cmp isLib ops).shm)[i]).addr = 1 + i :=
+  symFile_consec _ (worldOk_run cmp hc isLib ops World.init (worldOk_init cmp isLib)).shm i hi
+
+/-! ### libmcount's exit hook with nothing on the shadow stack -/
+
+/-- C19, lone exit (repaired guard, F-C19-UNPAIRED-OOB): an exit hook that arrives
+    with `idx == 0` changes nothing — no frame is popped, `idx` does not go
+    negative, nothing outside `rstack` is looked at. -/
+theorem c19_lone_exit_ignored (h : HookCfg) (hg : h.guard = true) (s : HSt) (now : Nat) (hz : s.m.idx = 0) :
+    cygExit h s now = s := by
+  unfold cygExit
+  simp [hz, hg]
+
+/-- the code as found (F-C19-UNPAIRED-OOB), characterised: once the thread has
+    been through an entry hook, what a lone exit does is decided by bit 14 of a
+    word that is not part of `rstack` -/
+theorem c19_prefix_lone_exit_reads_below (h : HookCfg) (hg : h.guard = false) (s : HSt) (now : Nat)
+    (hp : s.prepared = true) (hz : s.m.idx = 0) :
+    cygExit h s now = if cygFlag h.below then { s with oob := true } else s := by
+  unfold cygExit
+  cases hb : cygFlag h.below <;> simp [hz, hg, hp, hb]
+
+/-- the same for the whole callback: the `return` / `c_return` / `c_exception`
+    of a function that was entered before tracing started (runpy's frames after
+    `sys.exit()` or an uncaught exception), at program level, leaves the filter
+    counters, `libcall_count` and libmcount's state as they are. -/
+theorem c19_lone_exit_event_ignored (c : PCfg β) (hg : c.hk.guard = true) (s : PSt β) (F : Nat)
+    (n : Node β) (k : CKind) (hfirst : s.first = some F) (hfr : n.frame ≠ F) (hpy : s.py = St.init)
+    (hz : s.hk.m.idx = 0) (hm : firstMatch c.py.flist n.name = none) :
+    (pstep c s ⟨k.exit, n⟩).py = St.init ∧ (pstep c s ⟨k.exit, n⟩).hk = s.hk := by
+  have hsk : skips c s.first n.frame = false := by rw [hfirst]; exact skips_false c F _ hfr
+  have hm' : firstMatch (liftCfg c.py).flist n = none := by rw [liftCfg_flist_none]; exact hm
+  unfold pstep
+  simp only [hsk, Bool.false_eq_true, ↓reduceIte, hpy]
+  refine ⟨stepSt_stray _ n k hm', ?_⟩
+  rcases stepOut_stray (liftCfg c.py) St.init n k with h2 | h2
+  · simp [h2]
+  · simp [h2, hookOut, c19_lone_exit_ignored c.hk hg s.hk _ hz]
+
+/-! ### the first frame -/
+
+/-- the code as found and the repaired code alike: once `first_frame = F`, a
+    run sees exactly the events whose frame object does not sit at address `F`;
+    on a forest these are the events of the forest without the calls at `F`
+    (their callees move up one level). -/
+theorem c19_first_frame_drops (c : PCfg β) (hk : c.skipFirst = true) (F : Nat) (s : PSt β)
+    (hs : s.first = some F) (f : Calls (Node β)) :
+    prun c s (eventsL f) = prun c s (eventsL (pruneCalls F f .nil)) := by
+  rw [prun_filter c hk F (eventsL f) s hs]
+  have := filter_eventsL F f .nil
+  simp only [eventsL, List.append_nil] at this
+  rw [this]
+
+/-! ### the whole tracer on a whole run -/
+
+/-- C19, end to end.  Repaired code (`fixed`, `guard`; the first frame is kept
+    allocated, so no later frame object has its address — hypothesis `hfr`),
+    libmcount without filters of its own (`Plain`; `-F` and `-N` are applied by the
+    Python side).  A run is the first event (dropped), a program forest `f0` of
+    calls (Python functions also when ended by an exception, generator
+    resumptions, C functions, C functions that raise; any recursion) and, after
+    `sys.exit()` / an uncaught exception, the lone exits `tl` of the frames that
+    were running before tracing started, each followed by the forest that still
+    runs at that level (atexit callbacks, `threading._shutdown`).  Then
+
+    * the records libmcount writes are exactly the documented selection of
+      `f0` and of the forests of `tl`, in order, as entry/exit records with
+      `depth` = nesting depth, the entry/exit clock readings of each call, and
+      the address the final symbol table holds for the function's name (cut at
+      `--max-stack` levels);
+    * that stream is well nested; the shadow stack is empty at the end, `idx`
+      never went below 0 and nothing outside `rstack` was touched; the filter
+      counters are back at 0;
+    * every function of an event that was not dropped has an address, and that
+      address resolves through the written `python.fake.sym` to its name.  -/
+theorem c19_end_to_end_balanced (c : PCfg β) (hcmp : CmpEq c.cmp) (hf : c.py.fixed = true)
+    (hg : c.hk.guard = true) (hsk : c.skipFirst = true)
+    (hp : Uft.Mcount.Plain c.hk.m) (hs4 : c.hk.m.s4fixed = true)
+    (hdo : c.hk.m.maxStack ≤ c.hk.m.depthOpt) (hmin : c.hk.m.minSize = 0) (hen : c.hk.m.enabled0 = true)
+    (e0 : Ev (Node β)) (f0 : Calls (Node β)) (tl : List (CKind × Node β × Calls (Node β)))
+    (hfr : ∀ e ∈ progEvents f0 tl, e.name.frame ≠ e0.name.frame)
+    (hck : ClockOkL f0) (hcl : ∀ x ∈ tl, ClockOkL x.2.2)
+    (hnm : ∀ x ∈ tl, firstMatch c.py.flist x.2.1.name = none) :
+    let s := prun c (PSt.init c) (e0 :: progEvents f0 tl)
+    let addr := addrIn c.cmp s.tree
+    s.hk.m.out = Uft.Mcount.evCallsB 0 c.hk.m.maxStack (selProg (liftCfg c.py) addr f0 tl) ∧
+    Uft.Mcount.WellNested s.hk.m.out ∧
+    s.hk.m.frames = [] ∧ s.hk.m.over = 0 ∧ s.hk.oob = false ∧ s.py = St.init ∧
+    ∀ e ∈ progEvents f0 tl, addr e.name.name ≠ 0 ∧
+      resolve (symFile s.shm) (addr e.name.name) = some e.name.name := by
+  intro s addr
+  have hs0 : s = prun c { PSt.init c with first := some e0.name.frame } (progEvents f0 tl) := by
+    show prun c (PSt.init c) (e0 :: progEvents f0 tl) = _
+    rw [prun_cons, pstep_init c hsk]
+  have haddr : ∀ n sym, s.tree.find c.cmp n = some sym → addr n = sym.addr := by
+    intro n sym h
+    simp [addr, addrIn, h]
+  have hA := prun_eq_prunA c hcmp e0.name.frame addr (progEvents f0 tl)
+    { PSt.init c with first := some e0.name.frame } rfl hfr (by rw [← hs0]; exact haddr)
+  rw [← hs0] at hA
+  have hinit : ({ PSt.init c with first := some e0.name.frame } : PSt β).py = St.init ∧
+      ({ PSt.init c with first := some e0.name.frame } : PSt β).hk = HSt.init c.hk := ⟨rfl, rfl⟩
+  rw [hinit.1, hinit.2] at hA
+  obtain ⟨g1, g2, g3⟩ := prunA_guard c hg addr (progEvents f0 tl) (St.init, HSt.init c.hk) (hInv_init c.hk)
+  rw [← hA] at g1 g2 g3
+  simp only at g1 g2 g3
+  have hgw : Uft.Mcount.GoodW (Uft.Mcount.St.init c.hk.m) 0 := by
+    refine ⟨?_, trivial, fun _ => rfl, fun f hf => by simp [Uft.Mcount.St.init] at hf⟩
+    constructor <;> simp [Uft.Mcount.St.init, hmin, hen, Uft.Mcount.NoSkip]
+  have hnm' : ∀ x ∈ tl, firstMatch (liftCfg c.py).flist x.2.1 = none := by
+    intro x hx
+    rw [liftCfg_flist_none]
+    exact hnm x hx
+  obtain ⟨m1, m2, m3⟩ := mrun_prog c hf hp hs4 hdo addr tl f0 (Uft.Mcount.St.init c.hk.m) hgw hck hcl hnm'
+  have hm0 : (HSt.init c.hk).m = Uft.Mcount.St.init c.hk.m := rfl
+  rw [hm0] at g1 g2
+  rw [← g2] at m2 m3
+  rw [← g1] at m1
+  have hfr0 : s.hk.m.frames = [] := List.eq_nil_of_length_eq_zero m3.good.len
+  have hout : s.hk.m.out = Uft.Mcount.evCallsB 0 c.hk.m.maxStack (selProg (liftCfg c.py) addr f0 tl) := by
+    simpa [Uft.Mcount.eager, hfr0, Uft.Mcount.pending, Uft.Mcount.St.init] using m2
+  refine ⟨hout, ?_, hfr0, m3.good.over, g3.2, m1, ?_⟩
+  · rw [hout]
+    exact Uft.Mcount.nest_evCallsB _ [] _
+  · intro e he
+    have hto : TabOk c s := tabOk_prun c hcmp _ _ (tabOk_init c)
+    obtain ⟨sym, hsym⟩ : ∃ sym, s.tree.find c.cmp e.name.name = some sym := by
+      rw [hs0]
+      exact prun_seen c hcmp e0.name.frame _ _ e rfl he (hfr e he)
+    have ha := haddr _ _ hsym
+    obtain ⟨_, _, l, hl, hla, _, _⟩ := hto.tree _ _ hsym
+    obtain ⟨i, hi, rfl⟩ := List.getElem_of_mem hl
+    have hpos := hto.shm.pos i hi
+    refine ⟨by omega, ?_⟩
+    rw [ha]
+    exact tab_resolves c s hto _ _ hsym
+
+/-- the address every hook call of a run carries is the one the final symbol
+    table holds for the function's name (for any event stream, nested or not):
+    the run is the table-free machine `prunA` with those addresses -/
+theorem c19_hook_addresses_are_final (c : PCfg β) (hcmp : CmpEq c.cmp) (F : Nat) (s0 : PSt β)
+    (hs : s0.first = some F) (evs : List (Ev (Node β))) (hfr : ∀ e ∈ evs, e.name.frame ≠ F) :
+    ((prun c s0 evs).py, (prun c s0 evs).hk) =
+      prunA c (addrIn c.cmp (prun c s0 evs).tree) (s0.py, s0.hk) evs :=
+  prun_eq_prunA c hcmp F _ evs s0 hs hfr (fun n sym h => by simp [addrIn, h])
+
+/-! ### the two findings as theorems about the code as found, and non-vacuity -/
+
+/-- no filters, default libcall mode, names ≥ 100 are library functions; the
+    libmcount side with default options -/
+def wcfg (guard : Bool) (below : Nat) : PCfg Nat :=
+  { py := { fixed := true, filters := none, lmode := .single, isLib := fun n => decide (100 ≤ n) }
+    skipFirst := true
+    cmp := compare
+    hk := { m := {}, guard := guard, below := below } }
+
+/-- `exec` (name 0) called from uftrace.py's frame (address 1); `a()` (name 5,
+    frame 2, clock 20…21); then, after `sys.exit()`, the `return` of
+    `runpy._run_code` (name 100, frame 3) that was entered before tracing
+    started -/
+def evsStray : List (Ev (Node Nat)) :=
+  [⟨.ccall, ⟨0, 1, 10, 10⟩⟩, ⟨.call, ⟨5, 2, 20, 21⟩⟩, ⟨.ret, ⟨5, 2, 20, 21⟩⟩, ⟨.ret, ⟨100, 3, 30, 30⟩⟩]
+
+/-- F-C19-UNPAIRED-OOB witness.  The code as found looks at `rstack[-1].flags`:
+    when bit 14 of that foreign word is set (16384) the lone exit is taken for
+    the exit of a frame that lies before the array (`oob`); when it is clear
+    the exit is dropped.  The repaired code drops it whatever the word is, and
+    the trace is that of the program: one call. -/
+theorem c19_prefix_unpaired_oob_witness :
+    (prun (wcfg false 16384) (PSt.init (wcfg false 16384)) evsStray).hk.oob = true ∧
+    (prun (wcfg false 0) (PSt.init (wcfg false 0)) evsStray).hk.oob = false ∧
+    (prun (wcfg true 16384) (PSt.init (wcfg true 16384)) evsStray).hk.oob = false ∧
+    (prun (wcfg true 16384) (PSt.init (wcfg true 16384)) evsStray).hk.m.out =
+      [⟨20, 0, 0, 1⟩, ⟨21, 1, 0, 1⟩] := by
+  decide
+
+/-- the stream of `evsStray` with the address of `a()`'s frame object decided by
+    the allocator: uftrace.py's frame (address 1) has been released (its
+    `c_return` of `exec` was the last event on it) when `a`'s frame is created -/
+def evsAlias (pin : Bool) : List (Ev (Node Nat)) :=
+  [⟨.ccall, ⟨0, 1, 10, 10⟩⟩, ⟨.cret, ⟨0, 1, 11, 11⟩⟩,
+   ⟨.call, ⟨5, laterFrameAddr pin 1 2, 20, 21⟩⟩, ⟨.ret, ⟨5, laterFrameAddr pin 1 2, 20, 21⟩⟩]
+
+/-- F-C19-FIRSTFRAME-ALIAS witness.  The code as found keeps `first_frame` by
+    address without a reference: when the allocator hands the address out again
+    (`pin = false`), the call of `a()` leaves no record and `a` not even a
+    symbol, although the documented selection is `a() { }`.  With the reference
+    held (`pin = true`) the frame of `a` is elsewhere and the call is recorded. -/
+theorem c19_prefix_firstframe_alias_witness :
+    (prun (wcfg true 0) (PSt.init (wcfg true 0)) (evsAlias false)).hk.m.out = [] ∧
+    (prun (wcfg true 0) (PSt.init (wcfg true 0)) (evsAlias false)).shm.count = 0 ∧
+    (prun (wcfg true 0) (PSt.init (wcfg true 0)) (evsAlias true)).hk.m.out = [⟨20, 0, 0, 1⟩, ⟨21, 1, 0, 1⟩] ∧
+    specCalls (wcfg true 0).py false false 0 (.cons (.node 5 .py .nil) .nil) = [.enter 5, .exit] := by
+  decide
+
+/-- non-vacuity of `c19_end_to_end_balanced`: `wcfg true _` meets the
+    configuration hypotheses; a program `a() { os.getpid() }` followed by the
+    lone return of `runpy._run_code` and an atexit callback meets the others -/
+example : CmpEq (wcfg true 0).cmp := fun _ _ => Nat.compare_eq_eq
+example : Uft.Mcount.Plain (wcfg true 0).hk.m := ⟨rfl, rfl, rfl, rfl, rfl, fun _ => rfl⟩
+example : (wcfg true 0).hk.m.maxStack ≤ (wcfg true 0).hk.m.depthOpt := by decide
+def progF0 : Calls (Node Nat) :=
+  .cons (.node ⟨5, 2, 20, 25⟩ .py (.cons (.node ⟨101, 2, 21, 22⟩ .c .nil) .nil)) .nil
+def progTl : List (CKind × Node Nat × Calls (Node Nat)) :=
+  [(.py, ⟨100, 3, 30, 30⟩, .cons (.node ⟨6, 4, 31, 32⟩ .py .nil) .nil)]
+example : (∀ e ∈ progEvents progF0 progTl, e.name.frame ≠ 1) ∧ ClockOkL progF0 ∧ (∀ x ∈ progTl, ClockOkL x.2.2) ∧
+    (∀ x ∈ progTl, firstMatch (wcfg true 0).py.flist x.2.1.name = none) ∧
+    (prun (wcfg true 0) (PSt.init (wcfg true 0)) (⟨.ccall, ⟨0, 1, 10, 10⟩⟩ :: progEvents progF0 progTl)).hk.m.out =
+      [⟨20, 0, 0, 1⟩, ⟨21, 0, 1, 2⟩, ⟨22, 1, 1, 2⟩, ⟨25, 1, 0, 1⟩, ⟨31, 0, 0, 4⟩, ⟨32, 1, 0, 4⟩] := by
+  refine ⟨by decide, by simp [progF0, ClockOkL, ClockOk], by simp [progTl, ClockOkL, ClockOk], by decide, by decide⟩
+
+/-- non-vacuity of the symbol-table theorems: two processes, the child forked
+    after `5` was seen; `7` is first seen by the child, `9` by the parent, then
+    `7` by the parent too (a second line for the same name) -/
+example :
+    let w := World.init.run compare (fun n => decide (100 ≤ n))
+      [Op.lookup 1 5, .fork 1 2, .lookup 2 7, .lookup 1 9, .lookup 1 7]
+    (symFile w.shm).map (fun l => (l.addr, l.name)) =
+      [(1, some 5), (2, some 7), (3, some 9), (4, some 7), (5, none)] ∧
+    addrIn compare (w.trees 2) 7 = 2 ∧ addrIn compare (w.trees 1) 7 = 4 ∧
+    resolve (symFile w.shm) 2 = some 7 ∧ resolve (symFile w.shm) 4 = some 7 := by
+  decide
+
+/-- non-vacuity of `c19_lone_exit_ignored` / `c19_lone_exit_event_ignored`: the
+    state after `a()` has returned -/
+example : (prun (wcfg true 0) (PSt.init (wcfg true 0)) (evsStray.take 3)).hk.m.idx = 0 ∧
+    (prun (wcfg true 0) (PSt.init (wcfg true 0)) (evsStray.take 3)).py = St.init ∧
+    (prun (wcfg true 0) (PSt.init (wcfg true 0)) (evsStray.take 3)).first = some 1 := by
+  decide
+
+/-- non-vacuity of `c19_first_frame_drops`: a forest with a call at the first
+    frame's address whose Python callee survives one level up -/
+example :
+    pruneCalls 1 (.cons (.node ⟨5, 1, 20, 25⟩ .py (.cons (.node ⟨101, 1, 21, 22⟩ .c .nil)
+      (.cons (.node ⟨6, 4, 23, 24⟩ .py .nil) .nil))) .nil) .nil =
+    (.cons (.node ⟨6, 4, 23, 24⟩ .py .nil) .nil : Calls (Node Nat)) := by
+  simp [pruneCalls, pruneCall]
+
+end EndToEnd
 
 end Uft.PyTrace
